@@ -115,6 +115,36 @@ def run(chk):
             en = encs[0]
             gi, gj, gh = (l["var"] for l in en["loops"])
             mess = en["args"][1]
+            pre_problems = []
+            cm = mess
+            while cm[0] == "cast":
+                cm = cm[2]
+            if cm[0] == "call" and cm[1] == "modSwitchToTorus32" and len(cm[2]) == 2:
+                # modSwitchToTorus32(mu, 2^e) = mu * 2^(32-e) (C13.R3) -- valid only while 2^e fits the int32 parameter Msize (e <= 30)
+                e_mod = bits.pow2_exp(cm[2][1])
+                if e_mod is None:
+                    chk.broken("%s: modulus %s of modSwitchToTorus32 is not a power of two" % (gname, sym.show(cm[2][1])))
+                mess = sym.mul(cm[2][0], ("op", "<<", I(1), sym.sub(I(32), e_mod)))
+                jv, tt, bbv = en["loops"][1]["var"], en["loops"][1]["hi"], None
+                for m_, _c in sym.poly_items(e_mod):
+                    for a in m_:
+                        if a != jv and a[0] in ("sym", "fld"):
+                            bbv = a
+                wit = None
+                if bbv is not None:
+                    from sa.secretflow import eval_term
+                    for tv in range(1, 32):
+                        for bv in range(1, 32):
+                            if tv * bv > 31:
+                                continue
+                            ev = eval_term(e_mod, {jv: tv - 1, bbv: bv})
+                            if ev is not None and ev > 30 and wit is None:
+                                wit = (tv, bv, tv - 1, ev)
+                if wit:
+                    pre_problems.append("the message is computed by modSwitchToTorus32(.., 2^(%s)), whose modulus parameter is an int32: for the valid layout "
+                                        "t = %d, basebit = %d the last digit (j = %d) needs 2^%d, which is not representable (the interval "
+                                        "(2^63/Msize)*2 becomes 0 and the row encrypts 0 instead of h*s_i*2^-31)" % (
+                                            sym.show(e_mod), wit[0], wit[1], wit[2], wit[3]))
             rest, e3 = bits.split_weight(mess)
             ren = {gj: j}
             # the generator's basebit symbol may be a field of the key: compare after naming it like the consumer's
@@ -124,7 +154,7 @@ def run(chk):
                     if a != gj and a[0] in ("sym", "fld"):
                         gb = a
             e3n = sym.subst(sym.subst(e3, ren), {gb: W} if gb is not None else {})
-            problems = []
+            problems = list(pre_problems)
             if e3n != shift:
                 problems.append("generator weight 2^(%s), consumer digit position 2^(%s)" % (sym.show(e3n), sym.show(shift)))
             # rest must be key[i] * h
